@@ -47,6 +47,39 @@ func isNFKDCall(c ssa.CallInstruction, v ssa.Value) bool {
 	return cc.Args[len(cc.Args)-1] == v
 }
 
+// onlyEmptinessTest: every use of n (a length) is a comparison that only asks whether it is 0.
+func onlyEmptinessTest(n ssa.Value) bool {
+	if n == nil || n.Referrers() == nil {
+		return false
+	}
+	any := false
+	for _, r := range *n.Referrers() {
+		if _, ok := r.(*ssa.DebugRef); ok {
+			continue
+		}
+		bo, ok := r.(*ssa.BinOp)
+		if !ok {
+			return false
+		}
+		op, other := bo.Op, bo.Y
+		if other == n {
+			op, other = flipOp(op), bo.X
+		}
+		k, isC := intConst(other)
+		if !isC {
+			return false
+		}
+		switch {
+		case k == 0 && (op == token.EQL || op == token.NEQ || op == token.GTR || op == token.LEQ):
+		case k == 1 && (op == token.LSS || op == token.GEQ):
+		default:
+			return false
+		}
+		any = true
+	}
+	return any
+}
+
 func (a *Analysis) rawUses(root ssa.Value) (bad []rawUse, sanitised int) {
 	seen := map[ssa.Value]bool{}
 	var walk func(v ssa.Value, depth int)
@@ -69,8 +102,14 @@ func (a *Analysis) rawUses(root ssa.Value) (bad []rawUse, sanitised int) {
 			case *ssa.Slice:
 				bad = append(bad, rawUse{r, "substring of the raw argument"})
 			case *ssa.BinOp:
+				other := x.Y
+				if other == v {
+					other = x.X
+				}
 				if x.Op == token.ADD {
 					walk(x, depth+1)
+				} else if s, isC := strConst(other); isC && s == "" && (x.Op == token.EQL || x.Op == token.NEQ) {
+					// emptiness: NFKD never deletes a character, so s == "" exactly when NFKD(s) == ""
 				} else {
 					bad = append(bad, rawUse{r, "comparison on the raw argument (" + x.Op.String() + ")"})
 				}
@@ -115,6 +154,9 @@ func (a *Analysis) rawUses(root ssa.Value) (bad []rawUse, sanitised int) {
 				if calleeName(x) == "len" {
 					if onlyCapacityHint(x.Value()) {
 						continue // len(raw) used only as a capacity hint of make: not observable
+					}
+					if onlyEmptinessTest(x.Value()) {
+						continue // len(raw) == 0 exactly when the NFKD form is empty
 					}
 					bad = append(bad, rawUse{r, "length of the raw argument"})
 					continue
